@@ -96,7 +96,16 @@ impl<'a> DocGen<'a> {
                     for i in 0..self.rng.range(1, 4) {
                         let m = if ordered { format!("{}. ", i + 1) } else { "- ".to_string() };
                         lines.push(format!("{}{}", m, self.line()));
-                        if self.rng.chance(1, 4) {
+                        if self.rng.chance(1, 6) {
+                            // the item's text ends in a link that wraps onto a second line
+                            self.n += 1;
+                            let dest = format!("t{}", self.n);
+                            self.dests.push(dest.clone());
+                            let (a, b) = (self.word(), self.word());
+                            let last = lines.pop().unwrap();
+                            lines.push(format!("{} [{}", last, a));
+                            lines.push(format!("{}{}]({})", " ".repeat(m.len()), b, dest));
+                        } else if self.rng.chance(1, 4) {
                             lines.push(format!("{}{}", " ".repeat(m.len()), self.line()));
                         }
                         if self.rng.chance(1, 4) {
@@ -149,6 +158,10 @@ impl<'a> DocGen<'a> {
         let ends_in_link = self.rng.chance(1, 3);
         if ends_in_link {
             lines.push(String::new());
+            if self.rng.chance(1, 2) {
+                // a paragraph of two lines: the last line of the file is the second line of a block
+                lines.push(self.line());
+            }
             let (w, l) = (self.word(), self.link());
             lines.push(format!("{} {}", w, l));
         }
